@@ -239,15 +239,21 @@ namespace embedded_pairing::wkdibe {
         int x = 0;
         for (int i = 0; i != parent.l; i++) {
             int idx = parent.b[i].idx;
-            while (j != from.length && from.attrs[j].idx < idx && !from.attrs[j].omitFromKeys) {
+            while (j != from.length && from.attrs[j].idx < idx) {
                 j++;
             }
-            while (k != to.length && to.attrs[k].idx < idx && !to.attrs[k].omitFromKeys) {
+            while (k != to.length && to.attrs[k].idx < idx) {
                 k++;
             }
 
-            bool sub_from = (j != from.length && from.attrs[j].idx == idx);
-            bool add_to = (k != to.length && to.attrs[k].idx == idx);
+            /*
+             * A hidden entry takes the slot out of the key's free slots but
+             * contributes no value to a0.
+             */
+            bool in_from = (j != from.length && from.attrs[j].idx == idx);
+            bool in_to = (k != to.length && to.attrs[k].idx == idx);
+            bool sub_from = in_from && !from.attrs[j].omitFromKeys;
+            bool add_to = in_to && !to.attrs[k].omitFromKeys;
 
             if (j != from.length || k != to.length) {
                 if (sub_from && add_to) {
@@ -277,7 +283,7 @@ namespace embedded_pairing::wkdibe {
                 }
             }
 
-            if (!add_to) {
+            if (!in_to && !to.omitAllFromKeysUnlessPresent) {
                 sk.b[x].idx = parent.b[i].idx;
                 sk.b[x].hexp.copy(parent.b[i].hexp);
                 x++;
